@@ -1090,10 +1090,20 @@ func runRegionExact(rc *RuleCtx) {
 			// the region test may be the first conjunct of `A && B`
 			k, _ := condKey(iff.Cond)
 			bo, ok := k.(*ssa.BinOp)
-			if !ok || bo.Op != token.LSS || !isReadLoad(bo.X) {
+			if !ok {
 				continue
 			}
-			bound, ok := bo.Y.(*ssa.BinOp)
+			// `cursor < bound`, or the same test written `bound > cursor`
+			cur, bnd := bo.X, bo.Y
+			switch {
+			case bo.Op == token.LSS && isReadLoad(bo.X):
+			case bo.Op == token.GTR && isReadLoad(bo.Y):
+				cur, bnd = bo.Y, bo.X
+			default:
+				continue
+			}
+			_ = cur
+			bound, ok := bnd.(*ssa.BinOp)
 			if !ok || bound.Op != token.ADD || !(fromReadLength(bound.X) || fromReadLength(bound.Y)) {
 				continue
 			}
